@@ -21,6 +21,8 @@ enum RStep {
     Deliver(usize),
     Pause,
     Fail(String),
+    /// async only: `poll_read` returns `Poll::Pending` once (after waking the task); the blocking `read` skips the step
+    Wait,
 }
 
 struct Src {
@@ -32,8 +34,12 @@ struct Src {
 impl Src {
     fn step(&mut self, buf: &mut [u8]) -> io::Result<usize> {
         let remaining = self.data.len() - self.pos;
+        while let Some(RStep::Wait) = self.script.front() {
+            self.script.pop_front();
+        }
         let k = match self.script.pop_front() {
             None => buf.len().min(remaining),
+            Some(RStep::Wait) => unreachable!(),
             Some(RStep::Deliver(n)) => n.min(buf.len()).min(remaining),
             Some(RStep::Pause) => 0,
             Some(RStep::Fail(code)) => return Err(io::Error::new(ErrorKind::Other, code)),
@@ -51,7 +57,12 @@ impl Read for Src {
 }
 
 impl futures::io::AsyncRead for Src {
-    fn poll_read(mut self: Pin<&mut Self>, _cx: &mut Context<'_>, buf: &mut [u8]) -> Poll<io::Result<usize>> {
+    fn poll_read(mut self: Pin<&mut Self>, cx: &mut Context<'_>, buf: &mut [u8]) -> Poll<io::Result<usize>> {
+        if let Some(RStep::Wait) = self.script.front() {
+            self.script.pop_front();
+            cx.waker().wake_by_ref();
+            return Poll::Pending;
+        }
         Poll::Ready(self.step(buf))
     }
 }
@@ -64,6 +75,8 @@ fn parse_rscript(s: &str) -> Result<VecDeque<RStep>, String> {
     for t in s.split(',') {
         let step = if t == "p" {
             RStep::Pause
+        } else if t == "w" {
+            RStep::Wait
         } else if let Some(code) = t.strip_prefix('e') {
             RStep::Fail(code.to_string())
         } else if !t.is_empty() && t.bytes().all(|c| c.is_ascii_digit()) {
